@@ -177,6 +177,10 @@ func (eng *Engine) externEffects(fn *ssa.Function, s *sorts) *Effects {
 
 func (eng *Engine) modifiesEffects(c *FuncContract, fn *ssa.Function, s *sorts) *Effects {
 	res := newEffects()
+	if fn == nil {
+		eng.pkgHint = c.Pkg
+		defer func() { eng.pkgHint = "" }()
+	}
 	for _, m := range c.Modifies {
 		names, err := eng.modifiesVars(m, fn, s)
 		if err != nil {
@@ -271,6 +275,13 @@ func (eng *Engine) staticTypeOf(e *CExpr, fn *ssa.Function) (types.Type, error) 
 				k := 0
 				if _, err := fmt.Sscanf(e.Name[1:], "%d", &k); err == nil && k < sig.Params().Len() {
 					return sig.Params().At(k).Type(), nil
+				}
+			}
+			if eng.pkgHint != "" && !strings.Contains(e.Name, ".") {
+				if p, ok := eng.AllPkgs[eng.pkgHint]; ok && p.Types != nil {
+					if tn, ok := p.Types.Scope().Lookup(e.Name).(*types.TypeName); ok {
+						return tn.Type(), nil
+					}
 				}
 			}
 			if t, err := eng.resolveType(e.Name, nil); err == nil {
@@ -426,11 +437,24 @@ func (eng *Engine) localEffects(ins ssa.Instruction, s *sorts, res *Effects, wal
 		}
 	case ssa.CallInstruction:
 		if _, isGo := ins.(*ssa.Go); isGo {
-			// effects of a spawned goroutine are not effects of the spawner (thread-modular); the spawn itself is an event
+			// the spawn itself is an event of the spawner; the goroutine's own events are not (they are concurrent),
+			// but what it may write is part of the spawner's may-write summary: it may happen before the spawner returns
 			for _, ev := range eng.eventsFor(x.Common()) {
 				if !ev.Ret {
 					addEventVars(ev.Name, res.Vars)
 				}
+			}
+			sub := newEffects()
+			eng.callEffects(x.Common(), s, sub, func(fn *ssa.Function) { sub.add(eng.FuncEffects(fn)) })
+			if sub.All {
+				res.All = true
+				res.Why = append(res.Why, sub.Why...)
+			}
+			for n, f := range sub.Vars {
+				if strings.HasPrefix(n, "G.") {
+					continue
+				}
+				res.Vars[n] = f
 			}
 			return
 		}
@@ -506,6 +530,15 @@ func (eng *Engine) callEffects(c *ssa.CallCommon, s *sorts, res *Effects, walk f
 		if fc := eng.ifaceContract(c); fc != nil {
 			if fc.HasModifies {
 				res.add(eng.modifiesEffects(fc, nil, s))
+			}
+			// module types that implement the external interface: their methods' effects count as well
+			for _, t := range eng.Implementers(iface, typeName(c.Value.Type())) {
+				if closedWorld(c.Value.Type()) {
+					break // a module interface with its own contract: the contract is the whole story
+				}
+				if fn := eng.MethodOf(t, c.Method.Name(), c.Method.Pkg()); fn != nil && fn.Blocks != nil && eng.InModule(fn) {
+					walk(fn)
+				}
 			}
 			return
 		}
@@ -667,7 +700,24 @@ func pkgPathOf(fn *ssa.Function) string {
 func (eng *Engine) instrEffects(ins ssa.Instruction, g *vcgen) *Effects {
 	res := newEffects()
 	s := g.s
-	walk := func(fn *ssa.Function) { res.add(eng.FuncEffects(fn)) }
+	walk := func(fn *ssa.Function) {
+		if c := eng.ContractOf(fn); c != nil && c.HasModifies {
+			res.add(eng.modifiesEffects(c, fn, s)) // the call is translated with the callee's declared frame
+			evs, all := eng.EventEffects(fn)
+			if all {
+				for n := range g.varSort {
+					if strings.HasPrefix(n, "G.cnt.") {
+						evs[strings.TrimPrefix(n, "G.cnt.")] = true
+					}
+				}
+			}
+			for ev := range evs {
+				addEventVars(ev, res.Vars)
+			}
+			return
+		}
+		res.add(eng.FuncEffects(fn))
+	}
 	switch x := ins.(type) {
 	case *ssa.MapUpdate:
 		if mt, ok := x.Map.Type().Underlying().(*types.Map); ok {
